@@ -288,14 +288,37 @@ def run(chk):
     dflt = [n for n in ot if src(n.value) == "VAR"]
     chk.check(len(dflt) == 1 and any(isinstance(h, ast.ExceptHandler) and any(x is dflt[0] for x in ast.walk(h)) for h in ast.walk(ie.node)), "R8",
               f"{E}:import_eds | missing ObjectType means VAR", ie.loc(), "")
-    tests = {fi.norm(n.ast, subst=False) for n in fi.cfg.nodes if n.kind == "test" and "object_type" in src(n.ast)}
-    want = {fi.canon("object_type in (VAR, DOMAIN)"), fi.canon("object_type == ARR and eds.has_option(section, 'CompactSubObj')"), fi.canon("object_type == ARR"), fi.canon("object_type == RECORD")}
-    chk.check(want <= tests, "R8", f"{E}:import_eds | dispatch over VAR/DOMAIN/ARR/RECORD", ie.loc(), f"dispatch tests {sorted(tests)}")
+    # every object an index section yields is built under the condition on ObjectType that CiA 306 gives for it (conditions in
+    # force at the constructing call: one combined test, nested tests or separate branches are all the same)
+    def pos_conjuncts(at):
+        out = set()
+        for e_, p_ in fi.facts_at(at):
+            parts = e_.values if (p_ and isinstance(e_, ast.BoolOp) and isinstance(e_.op, ast.And)) else [e_]
+            for x_ in parts:
+                if p_:
+                    out.add(fi.norm(x_, subst=False))
+        return out
     makers = {"ODArray": 0, "ODRecord": 0}
+    disp_ok, disp_why = True, []
     for c in ast.walk(ie.node):
-        if isinstance(c, ast.Call) and (dotted(c.func) or "").split(".")[-1] in makers:
-            makers[(dotted(c.func) or "").split(".")[-1]] += 1
-    chk.check(makers == {"ODArray": 2, "ODRecord": 1}, "R8", f"{E}:import_eds | kinds constructed", ie.loc(), f"{makers}")
+        nm_ = (dotted(c.func) or "").split(".")[-1] if isinstance(c, ast.Call) else None
+        if nm_ in makers:
+            makers[nm_] += 1
+            need = fi.canon("object_type == ARR") if nm_ == "ODArray" else fi.canon("object_type == RECORD")
+            if need not in pos_conjuncts(fi.stmt_of(c)):
+                disp_ok = False
+                disp_why.append(f"{nm_}(...) built under {sorted(pos_conjuncts(fi.stmt_of(c)))}")
+        elif nm_ == "build_variable" and isinstance(c, ast.Call) and len(c.args) == 4:
+            if fi.canon("object_type in (VAR, DOMAIN)") not in pos_conjuncts(fi.stmt_of(c)):
+                disp_ok = False
+                disp_why.append(f"variable built under {sorted(pos_conjuncts(fi.stmt_of(c)))}")
+        elif nm_ == "build_variable" and isinstance(c, ast.Call) and len(c.args) == 5 and folder.try_fold(c.args[4], sc, None) == 1:
+            pc = pos_conjuncts(fi.stmt_of(c))
+            if not (fi.canon("object_type == ARR") in pc and fi.canon("eds.has_option(section, 'CompactSubObj')") in pc):
+                disp_ok = False
+                disp_why.append(f"compact array template built under {sorted(pc)}")
+    chk.check(disp_ok, "R8", f"{E}:import_eds | dispatch over VAR/DOMAIN/ARR/RECORD", ie.loc(), "; ".join(disp_why))
+    chk.check(makers["ODArray"] in (1, 2) and makers["ODRecord"] == 1, "R8", f"{E}:import_eds | kinds constructed", ie.loc(), f"{makers}")
     # sub-index sections are attached to their parent record/array
     adds = [c for c in ast.walk(ie.node) if isinstance(c, ast.Call) and dotted(c.func) == "entry.add_member"]
     chk.check(len(adds) >= 2, "R8", f"{E}:import_eds | members attached to parent", ie.loc(), "")
@@ -367,7 +390,7 @@ def run(chk):
             f_ = (dotted(n.value.func) or "").split(".")[-1]
             if f_ in ("ODArray", "ODRecord") or (f_ == "build_variable" and len(n.value.args) == 4):
                 made[id(n)] = (n, f_)
-    chk.floor("R10", len(made), 4, "objects built from index sections")
+    chk.floor("R10", len(made), 3, "objects built from index sections")
     for n, f_ in made.values():
         c = n.value
         tgt = n.targets[0].id
